@@ -29,7 +29,25 @@
    choice: an operation carries [closes] (is the client closed afterwards).  A failing dial is the
    environment's choice as well ([dial_ok]).  The goroutines that puddle starts (destroy, destruct) finish
    at [PFinish r]; the health check is split into [PTickBegin] (AcquireAllIdle) and one [PTickStep] per
-   resource, so holders may run in between.  MinConns = 0 (createIdleResources / checkMinConns do nothing). *)
+   resource, so holders may run in between.
+
+   MinConns.  [pnew c dials] is newPool: createIdleResources = MinConns sequential CreateResource calls (the
+   j-th dial succeeds iff the j-th element of [dials] says so, a missing element = success); the first failing
+   dial closes the pool (Pool.Close on a pool without a health check goroutine) and New fails.  After the idle
+   pass of a tick the health check goroutine runs checkMinConns ([PCheckMin], enabled when [hc] = Some (t, [])):
+   it reads Stat().TotalResources() (constructing + idle + acquired, the latter including resources whose
+   Destroy goroutine has not finished) and starts MinConns - Total goroutines ([spawned]).  Each of them calls
+   puddle's CreateResource, which has two halves with the dial in between:
+     [PSpawnBegin]      TryAcquire of the semaphore (else ErrNotAvailable), closed pool (ErrClosedPool), len(allResources)
+                        >= MaxSize (ErrNotAvailable), else createNewResource: a resource in status "constructing" that
+                        holds a token, is counted by Stat and carries creationTime = lastUsedNano = now ([constructing]
+                        keeps these time stamps, oldest first);
+     [PSpawnEnd i ok]   the constructor of the i-th creation in flight returns: on failure the resource is removed; on
+                        success it becomes idle and is pushed on the idle stack, or, if the pool was closed meanwhile,
+                        its destructor is started in a goroutine (RClosing, then PFinish) - puddle leaves that resource
+                        in allResources with status idle for ever, which Stat() shows ([ghosts]).
+   Both are steps of the environment and interleave with every other operation; Pool.Close waits for the health
+   check goroutine only (checkMinConns included: not enabled while [hc] is Some), not for the goroutines it started. *)
 From Coq Require Import List NArith Bool Arith Lia.
 Import ListNotations.
 Open Scope nat_scope.
@@ -45,6 +63,7 @@ Record resrc := mkRes {
 
 Record cfg := mkCfg {
   c_max : nat;          (* Options.MaxConns -> puddle MaxSize, >= 1 *)
+  c_min : nat;          (* Options.MinConns *)
   c_lifetime : N;       (* Options.MaxConnLifetime *)
   c_idletime : N        (* Options.MaxConnIdleTime *)
 }.
@@ -54,19 +73,26 @@ Record pool := mkPool {
   ress : list resrc;               (* every resource ever constructed; index = connection id *)
   idle : list nat;                 (* puddle idleResources, top of the stack first *)
   handles : list (option nat);     (* chpool.Client.res of every handle ever returned, by handle id *)
-  hc : option (N * list nat);      (* running checkIdleConnsHealth: its `now` and the resources still to visit *)
+  hc : option (N * list nat);      (* the tick in progress: checkIdleConnsHealth's `now` and the resources still
+                                      to visit; Some (t, []) = checkMinConns is about to run *)
   pclosed : bool;                  (* puddle Pool.closed *)
-  now : N
+  now : N;
+  spawned : nat;                   (* goroutines started by checkMinConns that have not entered CreateResource yet *)
+  constructing : list N;           (* CreateResource calls in flight: creationTime of the resource, oldest first *)
+  ghosts : nat                     (* resources constructed by CreateResource after Close: left in allResources *)
 }.
 
-Definition pinit (c : cfg) : pool := mkPool c [] [] [] None false 0%N.
+Definition pinit (c : cfg) : pool := mkPool c [] [] [] None false 0%N 0 [] 0.
 
-Definition set_ress p x := mkPool (p_cfg p) x (idle p) (handles p) (hc p) (pclosed p) (now p).
-Definition set_idle p x := mkPool (p_cfg p) (ress p) x (handles p) (hc p) (pclosed p) (now p).
-Definition set_handles p x := mkPool (p_cfg p) (ress p) (idle p) x (hc p) (pclosed p) (now p).
-Definition set_hc p x := mkPool (p_cfg p) (ress p) (idle p) (handles p) x (pclosed p) (now p).
-Definition set_pclosed p x := mkPool (p_cfg p) (ress p) (idle p) (handles p) (hc p) x (now p).
-Definition set_now p x := mkPool (p_cfg p) (ress p) (idle p) (handles p) (hc p) (pclosed p) x.
+Definition set_ress p x := mkPool (p_cfg p) x (idle p) (handles p) (hc p) (pclosed p) (now p) (spawned p) (constructing p) (ghosts p).
+Definition set_idle p x := mkPool (p_cfg p) (ress p) x (handles p) (hc p) (pclosed p) (now p) (spawned p) (constructing p) (ghosts p).
+Definition set_handles p x := mkPool (p_cfg p) (ress p) (idle p) x (hc p) (pclosed p) (now p) (spawned p) (constructing p) (ghosts p).
+Definition set_hc p x := mkPool (p_cfg p) (ress p) (idle p) (handles p) x (pclosed p) (now p) (spawned p) (constructing p) (ghosts p).
+Definition set_pclosed p x := mkPool (p_cfg p) (ress p) (idle p) (handles p) (hc p) x (now p) (spawned p) (constructing p) (ghosts p).
+Definition set_now p x := mkPool (p_cfg p) (ress p) (idle p) (handles p) (hc p) (pclosed p) x (spawned p) (constructing p) (ghosts p).
+Definition set_spawned p x := mkPool (p_cfg p) (ress p) (idle p) (handles p) (hc p) (pclosed p) (now p) x (constructing p) (ghosts p).
+Definition set_constructing p x := mkPool (p_cfg p) (ress p) (idle p) (handles p) (hc p) (pclosed p) (now p) (spawned p) x (ghosts p).
+Definition set_ghosts p x := mkPool (p_cfg p) (ress p) (idle p) (handles p) (hc p) (pclosed p) (now p) (spawned p) (constructing p) x.
 
 Definition with_status x s := mkRes s (r_created x) (r_lastused x) (r_cclosed x).
 Definition with_lastused x t := mkRes (r_status x) (r_created x) t (r_cclosed x).
@@ -88,11 +114,14 @@ Definition holds_token (s : rstatus) : bool := match s with RAcquired | RDestroy
 Definition in_pool (s : rstatus) : bool := match s with RIdle | RAcquired | RDestroying => true | _ => false end.
 
 Definition cnt (f : rstatus -> bool) (l : list resrc) : nat := length (filter (fun x => f (r_status x)) l).
-Definition held p := cnt holds_token (ress p).           (* semaphore tokens taken *)
+(* semaphore tokens taken: acquired, being destroyed, and CreateResource calls in flight *)
+Definition held p := cnt holds_token (ress p) + length (constructing p).
 (* puddle Stat() *)
-Definition total p := cnt in_pool (ress p).              (* TotalResources = len(allResources) *)
+Definition stat_constructing p := length (constructing p).
 Definition stat_acquired p := cnt holds_token (ress p).  (* status acquired within allResources *)
-Definition stat_idle p := cnt is_idle (ress p).
+Definition stat_idle p := cnt is_idle (ress p) + ghosts p.
+(* TotalResources = constructing + acquired + idle = len(allResources) *)
+Definition total p := cnt in_pool (ress p) + length (constructing p) + ghosts p.
 
 Inductive obs := OOk | OErr | ONoHandle | ONone.
 Inductive pres := POk (p : pool) (o : obs) | PCrash.
@@ -110,7 +139,10 @@ Inductive pop :=
 | PTickStep                                           (* ... its loop body for the next resource *)
 | PAdvance (dt : N)
 | PFinish (r : nat)                                   (* a goroutine started by Destroy / by a removal finishes *)
-| PClose.                                             (* Pool.Close *)
+| PClose                                              (* Pool.Close *)
+| PCheckMin                                           (* checkMinConns, the second half of a tick *)
+| PSpawnBegin                                         (* a goroutine of checkMinConns enters CreateResource *)
+| PSpawnEnd (i : nat) (dial_ok : bool).               (* the constructor of the i-th creation in flight returns *)
 
 (* ---- puddle -------------------------------------------------------------------------------- *)
 Inductive acq := AGot (p : pool) (r : nat) | AFail (p : pool) | ACrash.
@@ -238,16 +270,16 @@ Fixpoint hc_take (k : nat) (p : pool) : pool :=
     | [] => p
     end
   end.
+(* the ticker fires: AcquireAllIdle.  From here to the end of checkMinConns [hc] is Some *)
 Definition tick_begin (p : pool) : pool :=
   match hc p with
   | Some _ => p                                  (* one health check goroutine *)
   | None =>
-    if pclosed p then p                          (* AcquireAllIdle on a closed pool: nil *)
-    else hc_take (sem_all (c_max (p_cfg p) - held p) (length (idle p))) p
+    if pclosed p then p                          (* the goroutine has returned (Close waited for it) *)
+    else hc_take (sem_all (c_max (p_cfg p) - held p) (length (idle p))) (set_hc p (Some (now p, [])))
   end.
 
-Definition hc_rest (t0 : N) (rest : list nat) : option (N * list nat) :=
-  match rest with [] => None | _ => Some (t0, rest) end.
+Definition hc_rest (t0 : N) (rest : list nat) : option (N * list nat) := Some (t0, rest).
 
 (* the body of `for _, res := range resources` *)
 Definition tick_step (p : pool) : pres :=
@@ -289,6 +321,49 @@ Definition ch_close (p : pool) : pool :=
        | None => close_idle (length (idle p)) (set_pclosed p true)
        end.
 
+(* checkMinConns: for i := MinConns - Stat().TotalResources(); i > 0; i-- { go CreateResource } *)
+Definition check_min (p : pool) : pool :=
+  match hc p with
+  | Some (_, []) => set_spawned (set_hc p None) (spawned p + (c_min (p_cfg p) - total p))
+  | _ => p
+  end.
+
+(* puddle CreateResource, first half (under the mutex), run by one of the goroutines of checkMinConns *)
+Definition create_refused (p : pool) : bool :=
+  (c_max (p_cfg p) <=? held p)       (* !acquireSem.TryAcquire(1): ErrNotAvailable *)
+  || pclosed p                       (* ErrClosedPool *)
+  || (c_max (p_cfg p) <=? total p).  (* len(allResources) >= maxSize: ErrNotAvailable *)
+Definition spawn_begin (p : pool) : pool :=
+  match spawned p with
+  | O => p
+  | S n =>
+    let p1 := set_spawned p n in
+    if create_refused p then p1
+    else set_constructing p1 (constructing p ++ [now p])    (* createNewResource *)
+  end.
+
+Fixpoint remove_nth {A} (i : nat) (l : list A) : list A :=
+  match l, i with
+  | [], _ => []
+  | _ :: l', O => l'
+  | y :: l', S i' => y :: remove_nth i' l'
+  end.
+
+(* a resource that comes out of CreateResource: idle on top of the stack, or, into a closed pool, handed to
+   destructResourceValue while staying in allResources *)
+Definition add_created (p : pool) (t : N) : pool :=
+  if pclosed p then set_ghosts (set_ress p (ress p ++ [mkRes RClosing t t false])) (S (ghosts p))
+  else set_idle (set_ress p (ress p ++ [mkRes RIdle t t false])) (length (ress p) :: idle p).
+
+(* ... second half: the constructor has returned *)
+Definition spawn_end (p : pool) (i : nat) (dial_ok : bool) : pool :=
+  match nth_error (constructing p) i with
+  | None => p
+  | Some t =>
+    let p1 := set_constructing p (remove_nth i (constructing p)) in
+    if dial_ok then add_created p1 t else p1
+  end.
+
 Definition pstep (p : pool) (o : pop) : pres :=
   match o with
   | PAcquire d => ch_acquire p d
@@ -302,6 +377,9 @@ Definition pstep (p : pool) (o : pop) : pres :=
   | PAdvance dt => POk (set_now p (now p + dt)%N) ONone
   | PFinish r => POk (pd_finish p r) ONone
   | PClose => POk (ch_close p) ONone
+  | PCheckMin => POk (check_min p) ONone
+  | PSpawnBegin => POk (spawn_begin p) ONone
+  | PSpawnEnd i d => POk (spawn_end p i d) ONone
   end.
 
 Fixpoint prun (p : pool) (ops : list pop) : option pool :=
@@ -310,17 +388,43 @@ Fixpoint prun (p : pool) (ops : list pop) : option pool :=
   | o :: ops' => match pstep p o with POk p' _ => prun p' ops' | PCrash => None end
   end.
 
-(* the whole health check, and "every goroutine puddle started has finished" (what the sequential
-   harness waits for after each operation) *)
+(* newPool: createIdleResources(MinConns) = CreateResource called MinConns times by the caller itself (both
+   halves in one go); the first error makes New close the pool and fail *)
+Definition create_resource (p : pool) (dial_ok : bool) : pool * bool :=
+  if create_refused p then (p, false)
+  else if dial_ok then (add_created p (now p), true)
+  else (p, false).
+Fixpoint create_idle (k : nat) (dials : list bool) (p : pool) : pool * bool :=
+  match k with
+  | O => (p, true)
+  | S k' =>
+    match create_resource p (hd true dials) with
+    | (p', true) => create_idle k' (tl dials) p'
+    | (p', false) => (p', false)
+    end
+  end.
+Definition pnew (c : cfg) (dials : list bool) : pool :=
+  match create_idle (c_min c) dials (pinit c) with
+  | (p, true) => p                   (* the health check goroutine is started *)
+  | (p, false) => ch_close p         (* p.Close(); return nil, err *)
+  end.
+Definition pnew_ok (c : cfg) (dials : list bool) : bool := snd (create_idle (c_min c) dials (pinit c)).
+
+(* the whole tick: the idle pass, then checkMinConns; and "every goroutine puddle started has finished"
+   (what the sequential harness waits for after each operation) *)
 Fixpoint tick_all (fuel : nat) (p : pool) : option pool :=
   match hc p, fuel with
-  | None, _ => Some p
-  | Some _, O => Some p
-  | Some _, S f => match tick_step p with POk p' _ => tick_all f p' | PCrash => None end
+  | Some (_, _ :: _), S f => match tick_step p with POk p' _ => tick_all f p' | PCrash => None end
+  | _, _ => Some p
   end.
-Definition tick_full (p : pool) : option pool :=
-  let p1 := tick_begin p in
-  tick_all (length (idle p)) p1.
+Definition tick_pass (p : pool) : option pool := tick_all (length (idle p)) (tick_begin p).
+Definition tick_full (p : pool) : option pool := option_map check_min (tick_pass p).
+(* every goroutine of checkMinConns enters CreateResource; every creation in flight completes with the
+   given dial outcomes (a missing outcome = success) *)
+Fixpoint spawn_begin_all (k : nat) (p : pool) : pool :=
+  match k with O => p | S k' => spawn_begin_all k' (spawn_begin p) end.
+Fixpoint spawn_end_all (k : nat) (dials : list bool) (p : pool) : pool :=
+  match k with O => p | S k' => spawn_end_all k' (tl dials) (spawn_end p 0 (hd true dials)) end.
 Definition finish_all (p : pool) : pool :=
   fold_left pd_finish (seq 0 (length (ress p))) p.
 
